@@ -20,7 +20,7 @@ from zope.interface.adapter import AdapterRegistry, VerifyingAdapterRegistry
 from zope.interface.declarations import Declaration
 from zope.interface.interface import InterfaceClass
 
-from zmon import util
+from zmon import util, yieldinj
 
 FLAVOURS = {'adapter': AdapterRegistry, 'verifying': VerifyingAdapterRegistry}
 ENTRIES = ['lookup', 'lookup1', 'adapter_hook', 'queryAdapter', 'queryMultiAdapter', 'lookupAll', 'names',
@@ -718,8 +718,86 @@ def run_threads(ctx, rng, job):
         ctx.sample({'mode': mode, 'flavour': flavour, 'lookups': stats['lookups'], 'mutations': stats['mutations']})
 
 
+def run_subrace(ctx, rng, job):
+    """Threads that only perform lookups race to become the *first* dependents of fresh
+    specifications (each registry's lookup object subscribes itself to every required
+    specification it caches an answer for).  Afterwards, single-threaded, every
+    specification is re-based so that the answer changes: a subscription lost in the race
+    shows as an answer that survived its invalidation."""
+    nthreads = job.get('lookers', 4)
+    nspecs = job.get('specs', 120)
+    for flavour, Base in FLAVOURS.items():
+        mod = util.fresh_module()
+        IR0 = util.mkiface('IR0', module=mod)
+        IOther = util.mkiface('IOther', module=mod)
+        IP = util.mkiface('IP', module=mod)
+        specs = [util.mkiface('IS%d' % i, (IR0,), module=mod) for i in range(nspecs)]
+        top = Base()
+        reg = Base((top,))
+        sub = Base((reg,))
+        side = Base((top,))
+        v0, v1 = Val('v0'), Val('v1')
+        top.register([IR0], IP, '', v0)
+        top.register([IOther], IP, '', v1)
+        barrier = threading.Barrier(nthreads)
+        errors = []
+        sys.setswitchinterval(1e-6)
+        # statement-level preemption inside the subscription bookkeeping
+        from zope.interface.adapter import AdapterLookupBase
+        from zope.interface.interface import Specification
+        injected = yieldinj.install([Specification.subscribe, Specification.unsubscribe, Specification.dependents,
+                                     AdapterLookupBase._subscribe], prob=0.5, seed=job['seed'])
+
+        def looker(k):
+            try:
+                r = [sub, reg, side, sub][k % 4]
+                for s in specs:
+                    barrier.wait(30)
+                    if r.lookup([s], IP) is not v0:
+                        errors.append(('wrong-answer', s.__name__))
+                    r.lookupAll([s], IP)
+            except BaseException as e:     # noqa
+                errors.append(('exception', repr(e)))
+                try:
+                    barrier.abort()
+                except Exception:
+                    pass
+        ts = [threading.Thread(target=looker, args=(k,)) for k in range(nthreads)]
+        for t in ts:
+            t.start()
+        for t in ts:
+            t.join(120)
+        sys.setswitchinterval(0.005)
+        if injected:
+            pts, n = yieldinj.fired()
+            yieldinj.uninstall()
+            ctx.count('yield_injections', n)
+            ctx.extra.setdefault('preemption_points', [])
+            ctx.extra['preemption_points'] = sorted(set(map(tuple, ctx.extra['preemption_points'])) | pts)
+            ctx.counters['distinct_preemption_points'] = len(ctx.extra['preemption_points'])
+        for e in errors[:3]:
+            ctx.violation('lookup-only-threads-disturbed-each-other', {'flavour': flavour, 'what': list(e)}, abort=False)
+        stale = 0
+        for s in specs:
+            s.__bases__ = (IOther,)
+            for r, label in ((sub, 'sub'), (reg, 'reg'), (side, 'side')):
+                ctx.ev()
+                ctx.count('subrace_probes')
+                got = r.lookup([s], IP)
+                if got is not v1:
+                    stale += 1
+                    if stale <= 2:
+                        ctx.violation('answer-survived-invalidation-after-racing-subscriptions',
+                                      {'flavour': flavour, 'registry': label, 'spec': s.__name__, 'got': repr(got), 'expected': repr(v1)},
+                                      abort=False)
+        ctx.count('subrace_runs')
+        ctx.shape(('subrace', flavour, nthreads), nontrivial=True)
+
+
 def run_case(ctx, rng, job):
     part = job.get('part', 'script')
+    if part == 'subrace':
+        return run_subrace(ctx, rng, job)
     if part == 'script':
         run_script(ctx, rng, job)
     elif part == 'leak':
